@@ -9,6 +9,14 @@ ALL = ["C%02d" % i for i in range(1, 21)]
 TECH = "contract-based deductive verification: sidecar contracts on the real functions, VCs generated from /repo's ast by pyvc, discharged by z3/cvc5"
 
 CHECKS = {
+    "C16": dict(
+        category="proof", design_ref="DESIGN.md section 8 (C16)",
+        text=("spec_class.register_method - the single gate through which generated helpers reach the decorated class - is symbolically executed from the "
+              "current source and proved, for every class, name and method, to keep whatever the class's own namespace already defines under that name "
+              "(user-written __init__/__repr__/__eq__/helpers/class attributes) and otherwise to define exactly that name; discharged by z3. The helper "
+              "set per attribute kind, singular naming, collision fallback and lazy descriptors are exercised by a labelled bounded stand-in only."),
+        note=("The proof covers the 'never replaces user code' clause; 'exactly the documented helpers' is bounded (three class bodies). Assumed: the class "
+              "namespace model (cdict), __set_name__ hooks pure.")),
     "C09": dict(
         category="proof", design_ref="DESIGN.md section 8 (C09)",
         text=("InitMethod.init: the loop over the attributes owned by the class and the finalisation are symbolically executed from the current source "
